@@ -359,7 +359,7 @@ func init() {
 	register(&Prop{
 		ID: "C03", Level: "other", Technique: "static secret-flow (taint) analysis over go/ssa with sinks at branches, addresses, shift counts, divisions and outgoing calls; mnemonic/operand audit of the assembly",
 		Explanation: "Proof-shaped, but with one recorded genuine finding it is not a proof of the property on this tree (hence level other): every sink is one obligation and all are discharged except those of the known finding in checkInitialized (known_findings.json). Noninterference by taint typing at SSA level: in every function reachable from a non-VarTime exported function, no branch condition, memory index/slice bound, allocation size, variable shift count, division operand, struct comparison, panic value or non-allow-listed outgoing call receives a value derived from scalars, coordinates, field elements, cond bits or input bytes (lengths, loop counters and package-level tables are public; implicit flows through secret-selected returns/phis are tracked); the assembly bodies are straight-line with addresses derived only from pointer arguments.",
-		Assumptions: []string{"source/SSA level only: instruction selection, memequal, MULQ latency and 32-bit math/bits fallbacks are outside the analysis", "the allow-listed library functions (math/bits Mul64/Add64/Sub64, binary.LittleEndian Uint64/PutUint64, subtle.ConstantTimeByteEq/ConstantTimeCompare) are constant time"},
+		Assumptions: []string{"source/SSA level only: instruction selection, memequal, MULQ latency and 32-bit math/bits fallbacks are outside the analysis", "the allow-listed library functions (math/bits Mul64/Add64/Sub64, binary.LittleEndian Uint64/PutUint64, subtle.ConstantTimeByteEq/ConstantTimeEq/ConstantTimeSelect/ConstantTimeLessOrEq/ConstantTimeCompare) are constant time, as documented"},
 		TrustedBase: append([]string{"allow-list of external callees", "frozen exception table (validity decisions of decoders; the invariantly false high-bit assertion)"}, trustedCommon...),
 		Exceptions: []report.Exception{
 			{Key: `^CT-BRANCH/\(\*Scalar\)\.signedRadix16/.*\[31\]>127$`, Pattern: true, Reason: "invariantly false: every Scalar is < l < 2^253 (fiat post-condition 0 ≤ eval out1 < m), so byte 31 of its encoding is ≤ 0x10 and the decision sequence is constant — the interval run of RECODE (C01) decides this very comparison false; internal assertion"},
